@@ -122,7 +122,9 @@ def _value(rng, one_line):
                          else _scalar(rng) for _ in range(n)], "ml": (not one_line) and rng.random() < 0.5}
     if r2 < 0.8:
         return {"$arr": [{"$arr": [1, 2], "ml": False}, {"$arr": ["[x]"], "ml": False}][:n], "ml": (not one_line) and rng.random() < 0.5}
-    return {"$arr": [{"$inl": {"a": rng.choice([1, 2]), "b": "x"}} for _ in range(n)], "ml": False}
+    # arrays of (inline) tables whose tables do not all have the same keys: an array is a value, taken as a whole
+    return {"$arr": [{"$inl": {k: rng.choice([1, 2, "x", True]) for k in rng.sample(["a", "b", "c", "name"], rng.randrange(1, 4))}}
+                     for _ in range(n)], "ml": False}
 
 
 def gen_doc(rng, depth, one_line):
